@@ -3,7 +3,11 @@
       through [guarded]) for ANY reordering threshold [last_len]: dynamic
       reordering enabled or not.  The theorems of [Proofs/Image.v] and
       [Proofs/Subst.v] assume [last_len s = None]; here that hypothesis is
-      dropped and [last_len s' = last_len s] is added to the conclusion. *)
+      dropped and [last_len s' = last_len s] is added to the conclusion.
+      The theorems that conclude an [Ok] result assume [max_nodes s = None] (no
+      node limit on the manager that receives nodes); [image_pub_spec_run] is
+      given an [Ok] result and needs no such hypothesis.  What holds with a
+      limit (any outcome) is in [Proofs/Total3.v]. *)
 From DD Require Export Image Total3.
 
 Lemma set_ll_id (s : st) : s <| last_len := last_len s |> = s.
@@ -183,7 +187,7 @@ Proof.
 Qed.
 
 Theorem preimage_pub_spec s trans target byname rn qbyname qvars fa q rnl m r s' :
-  Inv s → valid s trans → valid s target →
+  Inv s → max_nodes s = None → valid s trans → valid s target →
   fst (map_to_level_set qbyname qvars s) = Ok q →
   fst (map_rename byname rn s) = Ok rnl → m = list_to_map (reverse rnl) →
   no_overlap m = true →
@@ -197,7 +201,7 @@ Theorem preimage_pub_spec s trans target byname rn qbyname qvars fa q rnl m r s'
       if fa then ∀ b, agree_off q a b → pre_body s m trans target b = true
       else ∃ b, agree_off q a b ∧ pre_body s m trans target b = true.
 Proof.
-  intros HI Ht Hu Hq Hrn Hm Hno Hdecl Hinj Hadj Hocc Hrun.
+  intros HI Hmx Ht Hu Hq Hrn Hm Hno Hdecl Hinj Hadj Hocc Hrun.
   destruct (guarded_run_nrf _ s r s' (nrf_preimage _ _ _ _ _ _ _) Hrun) as (s1&Hrun1&->).
   destruct (preimage_spec (s0 s) trans target byname rn qbyname qvars fa q rnl m r s1)
     as (x&->&HI1&He&Hv&HD); try done.
@@ -211,7 +215,7 @@ Proof.
 Qed.
 
 Theorem preimage_pub_spec_mono s trans target byname rn qbyname qvars fa q rnl m r s' :
-  Inv s → valid s trans → valid s target →
+  Inv s → max_nodes s = None → valid s trans → valid s target →
   fst (map_to_level_set qbyname qvars s) = Ok q →
   fst (map_rename byname rn s) = Ok rnl → m = list_to_map (reverse rnl) →
   no_overlap m = true →
@@ -221,7 +225,7 @@ Theorem preimage_pub_spec_mono s trans target byname rn qbyname qvars fa q rnl m
   ∃ x, r = Ok x ∧ Inv s' ∧ extends s s' ∧ last_len s' = last_len s ∧ valid s' x ∧
     ∀ a, D s' x a = true ↔ qsemF fa q (pre_body s m trans target) a.
 Proof.
-  intros HI Ht Hu Hq Hrn Hm Hno Hdecl Hvm Hrun.
+  intros HI Hmx Ht Hu Hq Hrn Hm Hno Hdecl Hvm Hrun.
   destruct (guarded_run_nrf _ s r s' (nrf_preimage _ _ _ _ _ _ _) Hrun) as (s1&Hrun1&->).
   destruct (preimage_spec_mono (s0 s) trans target byname rn qbyname qvars fa q rnl m r s1)
     as (x&->&HI1&He&Hv&HD); try done.
@@ -236,7 +240,7 @@ Qed.
 
 (** ** [image] *)
 Theorem image_pub_spec_doc s trans source byname rn qbyname qvars fa q rnl m r s' :
-  Inv s → valid s trans → valid s source →
+  Inv s → max_nodes s = None → valid s trans → valid s source →
   fst (map_to_level_set qbyname qvars s) = Ok q →
   fst (map_rename byname rn s) = Ok rnl → m = list_to_map (reverse rnl) →
   no_overlap m = true →
@@ -248,7 +252,7 @@ Theorem image_pub_spec_doc s trans source byname rn qbyname qvars fa q rnl m r s
       if fa then ∀ b, agree_off q (post_assign m a) b → conj_body s trans source b = true
       else ∃ b, agree_off q (post_assign m a) b ∧ conj_body s trans source b = true.
 Proof.
-  intros HI Ht Hu Hq Hrn Hm Hno Hdecl Hocc Hrun.
+  intros HI Hmx Ht Hu Hq Hrn Hm Hno Hdecl Hocc Hrun.
   destruct (guarded_run_nrf _ s r s' (nrf_image _ _ _ _ _ _ _) Hrun) as (s1&Hrun1&->).
   destruct (image_spec_doc (s0 s) trans source byname rn qbyname qvars fa q rnl m r s1)
     as (x&->&HI1&He&Hv&HD); try done.
@@ -287,7 +291,7 @@ Proof.
 Qed.
 
 Theorem image_pub_spec s trans source byname rn qbyname qvars fa q rnl m r s' :
-  Inv s → valid s trans → valid s source →
+  Inv s → max_nodes s = None → valid s trans → valid s source →
   fst (map_to_level_set qbyname qvars s) = Ok q →
   fst (map_rename byname rn s) = Ok rnl → m = list_to_map (reverse rnl) →
   (∀ k k', m !! k = Some k' → k' < nvars s) →
@@ -298,7 +302,7 @@ Theorem image_pub_spec s trans source byname rn qbyname qvars fa q rnl m r s' :
       if fa then ∀ b, agree_off q (post_assign m a) b → conj_body s trans source b = true
       else ∃ b, agree_off q (post_assign m a) b ∧ conj_body s trans source b = true.
 Proof.
-  intros HI Ht Hu Hq Hrn Hm Hdecl Hpre Hrun.
+  intros HI Hmx Ht Hu Hq Hrn Hm Hdecl Hpre Hrun.
   destruct (guarded_run_nrf _ s r s' (nrf_image _ _ _ _ _ _ _) Hrun) as (s1&Hrun1&->).
   destruct (image_spec (s0 s) trans source byname rn qbyname qvars fa q rnl m r s1)
     as (x&->&HI1&He&Hv&HD); try done.
@@ -313,13 +317,13 @@ Qed.
 
 (** ** [copy_bdd] *)
 Theorem copy_bdd_pub_spec_occ s src u r s' :
-  Inv src → Inv s → valid src u →
+  Inv src → Inv s → max_nodes s = None → valid src u →
   (∀ v l, vars src !! v = Some l → occurs src u l → is_Some (vars s !! v)) →
   copy_bdd_pub src u s = (r, s') →
   ∃ x, r = Ok x ∧ Inv s' ∧ extends s s' ∧ last_len s' = last_len s ∧ valid s' x ∧
     ∀ ρ, denv s' x ρ = denv src u ρ.
 Proof.
-  intros HIs HI Hu Hdecl Hrun.
+  intros HIs HI Hmx Hu Hdecl Hrun.
   destruct (guarded_run_nrf _ s r s' (nrf_copy_bdd _ _) Hrun) as (s1&Hrun1&->).
   destruct (copy_bdd_spec_occ src (s0 s) u r s1) as (x&->&HI1&He&Hv&HD); try done.
   - by apply Inv_s0.
@@ -329,12 +333,12 @@ Proof.
 Qed.
 
 Theorem copy_bdd_pub_spec s src u r s' :
-  Inv src → Inv s → valid src u →
+  Inv src → Inv s → max_nodes s = None → valid src u →
   (∀ v l, vars src !! v = Some l → is_Some (vars s !! v)) →
   copy_bdd_pub src u s = (r, s') →
   ∃ x, r = Ok x ∧ Inv s' ∧ extends s s' ∧ last_len s' = last_len s ∧ valid s' x ∧
     ∀ ρ, denv s' x ρ = denv src u ρ.
 Proof.
-  intros HIs HI Hu Hdecl. apply copy_bdd_pub_spec_occ; try done.
+  intros HIs HI Hmx Hu Hdecl. apply copy_bdd_pub_spec_occ; try done.
   intros v l Hv _. by apply (Hdecl v l).
 Qed.
